@@ -5,12 +5,12 @@
    of pin_mode / digital_write / analog_write / digital_read / analog_read over int and str
    pins); [dread s p] / [aread s p] are what digital_read(p) / analog_read(p) return in [s];
    [history k ops] is the reference memory semantics computed from the calls alone. *)
-From Coq Require Import ZArith QArith List Bool Reals SpecFloat.
+From Coq Require Import ZArith QArith List Bool Reals Qreals SpecFloat.
 From Flocq Require Import Core.Core IEEE754.BinarySingleNaN.
 From RV Require Import Base.Wire Base.Text Base.NumC Base.TextC
   Host.Core Host.Utils Host.Sensors Host.Serial Host.UtilsFloat Host.CoreKeys
   Proofs.NumCP Proofs.CoreP Proofs.UtilsP Proofs.SensorsP
-  Proofs.UtilsFloatSP Proofs.UtilsFloatP Proofs.CoreKeysP.
+  Proofs.UtilsFloatSP Proofs.UtilsFloatP Proofs.UtilsFloatErrP Proofs.CoreKeysP.
 Import ListNotations.
 Open Scope Z_scope.
 
@@ -533,6 +533,73 @@ Example C20_fmap_nonzero_span_refuted :
   fmap (NI (10 ^ 400)) (NF F0) (NI (2 * 10 ^ 400)) (NI 0) (NI 1) = FRaise EOverflow.
 Proof. vm_compute. repeat split. Qed.
 Print Assumptions C20_fmap_nonzero_span_refuted.
+
+(* ERROR BOUND against the exact affine map (u = 2^-53): with no intermediate overflow and the
+   quotient and the product outside the subnormal range (or zero), the binary64 result is
+   within 8 u (|to_low| + |ratio (to_high - to_low)|) of it *)
+Theorem C20_fmap_error_bound : forall x fl fh tl th : B,
+  is_finite x = true -> is_finite fl = true -> is_finite fh = true ->
+  is_finite tl = true -> is_finite th = true ->
+  b2r fl <> b2r fh ->
+  let n := rnd (b2r x - b2r fl) in
+  let d := rnd (b2r fh - b2r fl) in
+  let q := rnd (n / d) in
+  let w := rnd (b2r th - b2r tl) in
+  let p := rnd (q * w) in
+  let y := rnd (b2r tl + p) in
+  in_range n -> in_range d -> in_range q -> in_range w -> in_range p -> in_range y ->
+  normal_or_zero (n / d) -> normal_or_zero (q * w) ->
+  exists r : B,
+    fmap_ff (b2sf x) (b2sf fl) (b2sf fh) (b2sf tl) (b2sf th) = FOk (b2sf r) /\
+    is_finite r = true /\
+    (Rabs (b2r r - (b2r tl + (b2r x - b2r fl) / (b2r fh - b2r fl) * (b2r th - b2r tl)))
+     <= 8 * u * (Rabs (b2r tl) + Rabs ((b2r x - b2r fl) / (b2r fh - b2r fl) * (b2r th - b2r tl))))%R.
+Proof. exact fmap_ff_error. Qed.
+Print Assumptions C20_fmap_error_bound.
+
+(* the Fraction the harness sends for a float is the value of the float ... *)
+Theorem C20_float_value_is_fraction : forall (x : B) (q : Q),
+  sf_Q (b2sf x) = Some q -> Q2R q = b2r x.
+Proof. exact sf_Q_b2r. Qed.
+Print Assumptions C20_float_value_is_fraction.
+
+(* ... so the same bound holds against the exact-rational model [umap] (C20_map_affine) run
+   on the same five numbers: this is the distance between the two models of Utils.map *)
+Theorem C20_fmap_error_vs_rational_model : forall (x fl fh tl th : B) (qx qfl qfh qtl qth : Q),
+  sf_Q (b2sf x) = Some qx -> sf_Q (b2sf fl) = Some qfl -> sf_Q (b2sf fh) = Some qfh ->
+  sf_Q (b2sf tl) = Some qtl -> sf_Q (b2sf th) = Some qth ->
+  ~ (qfl == qfh)%Q ->
+  let n := rnd (b2r x - b2r fl) in
+  let d := rnd (b2r fh - b2r fl) in
+  let q := rnd (n / d) in
+  let w := rnd (b2r th - b2r tl) in
+  let p := rnd (q * w) in
+  let y := rnd (b2r tl + p) in
+  in_range n -> in_range d -> in_range q -> in_range w -> in_range p -> in_range y ->
+  normal_or_zero (n / d) -> normal_or_zero (q * w) ->
+  exists (r : B) (v : Q),
+    umap qx qfl qfh qtl qth = UOk v /\
+    fmap_ff (b2sf x) (b2sf fl) (b2sf fh) (b2sf tl) (b2sf th) = FOk (b2sf r) /\
+    is_finite r = true /\
+    (Rabs (b2r r - Q2R v) <= 8 * u * (Rabs (Q2R qtl) + Rabs (Q2R v - Q2R qtl)))%R.
+Proof. exact fmap_ff_error_Q. Qed.
+Print Assumptions C20_fmap_error_vs_rational_model.
+
+(* the hypotheses of the three theorems above hold on map(5.0, 0.0, 10.0, 0.0, 100.0) = 50.0 *)
+Example C20_fmap_hypotheses_nonvacuous :
+  is_finite B5 = true /\ is_finite Bz = true /\ is_finite B10 = true /\ is_finite B100 = true /\
+  b2r Bz <> b2r B10 /\
+  let n := rnd (b2r B5 - b2r Bz) in
+  let d := rnd (b2r B10 - b2r Bz) in
+  let q := rnd (n / d) in
+  let w := rnd (b2r B100 - b2r Bz) in
+  let p := rnd (q * w) in
+  let y := rnd (b2r Bz + p) in
+  in_range n /\ in_range d /\ in_range q /\ in_range w /\ in_range p /\ in_range y /\
+  normal_or_zero (n / d) /\ normal_or_zero (q * w) /\
+  fmap_ff (b2sf B5) (b2sf Bz) (b2sf B10) (b2sf Bz) (b2sf B100) = FOk F50.
+Proof. exact error_hyps_nonvacuous. Qed.
+Print Assumptions C20_fmap_hypotheses_nonvacuous.
 
 (* ---- sleep *)
 
